@@ -17,6 +17,7 @@ import (
 	"strings"
 	"sync"
 	"time"
+	_ "time/tzdata" // the zone database, whatever the host has installed
 
 	"github.com/ClickHouse/ch-go/proto"
 )
@@ -266,6 +267,89 @@ func c20Date32(h *H, off, ns, sod, d0, stride, n int64) {
 		h.Stats["instants.date32"] += int(n)
 		return checked
 	})
+}
+
+// ---- batches in a real location -----------------------------------------------------------------------
+// Values of ONE *time.Location whose UTC offset differs between them (daylight saving, a historical change), appended
+// as a batch (AppendArr; Array(Date).Append): every value must land on its own calendar day in its own zone.  One
+// transcript line per value, in the format of the single-value ops (offset = the offset in force at that instant), so
+// the model is compared on every element of the batch.
+var c20RealZones = []string{"Europe/Berlin", "America/New_York", "Australia/Lord_Howe", "Asia/Kathmandu", "America/St_Johns", "Pacific/Apia", "Europe/Moscow", "Africa/Casablanca"}
+
+func c20Batch(h *H, n int) {
+	name := c20RealZones[h.R.Intn(len(c20RealZones))]
+	loc, err := time.LoadLocation(name)
+	if err != nil {
+		h.Stat("batch.zone-unavailable")
+		return
+	}
+	var ts []time.Time
+	for len(ts) < n {
+		// a day between 1970 and 2100, and the instants around both midnights of the year's offset changes
+		y := 1970 + h.R.Intn(130)
+		base := time.Date(y, time.Month(1+h.R.Intn(12)), 1+h.R.Intn(28), 0, 0, 0, 0, loc)
+		shift := []time.Duration{0, time.Second, -time.Second, 29 * time.Minute, 59 * time.Minute, 61 * time.Minute, -30 * time.Minute, 2 * time.Hour, 23*time.Hour + 59*time.Minute, time.Duration(h.R.Intn(86400)) * time.Second}[h.R.Intn(10)]
+		t := base.Add(shift)
+		if t.Unix() < 0 || t.Unix() >= 65535*86400 {
+			continue
+		}
+		ts = append(ts, t)
+		if h.R.Intn(2) == 0 {
+			ts = append(ts, t.AddDate(0, 6, 0)) // the other side of the year: usually the other offset
+		}
+	}
+	var d16 proto.ColDate
+	var d32 proto.ColDate32
+	a16, a32 := new(proto.ColDate).Array(), new(proto.ColDate32).Array()
+	crashed := func() (c bool) {
+		defer func() {
+			if p := recover(); p != nil {
+				c = true
+			}
+		}()
+		d16.AppendArr(ts)
+		d32.AppendArr(ts)
+		a16.Append(ts)
+		a32.Append(ts)
+		return false
+	}()
+	offs := map[int64]bool{}
+	for i, t := range ts {
+		off := c20Off(t)
+		offs[off] = true
+		local := t.Unix() + off
+		day, sod := c20FloorDiv(local, 86400), local-c20FloorDiv(local, 86400)*86400
+		ns := int64(t.Nanosecond())
+		for k, op := range []string{"date", "date32"} {
+			i, k := i, k
+			c20Emit(h, c20Line(op, off, ns, sod, day, 1, 1), func(o *c20Out) int {
+				if crashed {
+					panic("batch append panicked")
+				}
+				var v int64
+				var back, backArr time.Time
+				if k == 0 {
+					v, back, backArr = int64(d16[i]), d16.Row(i), a16.Row(0)[i]
+				} else {
+					v, back, backArr = int64(d32[i]), d32.Row(i), a32.Row(0)[i]
+				}
+				o.num(v, back.Unix())
+				switch {
+				case v != day:
+					o.failf("%s appended in a batch of values of location %s (offset %d at that instant) is stored as day %d, its calendar day in its own zone is day %d", t.Format(time.RFC3339), name, off, v, day)
+				case !c20SameDay(back, t):
+					o.failf("batch round trip changes the calendar day: %s -> %d -> %s", t.Format(time.RFC3339), v, back.Format(time.RFC3339))
+				case !c20SameDay(backArr, t):
+					o.failf("Array(%s) round trip changes the calendar day: %s -> %s", op, t.Format(time.RFC3339), backArr.Format(time.RFC3339))
+				}
+				return 1
+			})
+		}
+	}
+	h.Stats["instants.batch"] += len(ts)
+	if len(offs) > 1 {
+		h.Stat("batch.with-two-offsets")
+	}
 }
 
 // ---- DateTime / DateTime64 ----------------------------------------------------------------------------
@@ -882,6 +966,11 @@ func runC20(h *H) {
 				c20Date(h, off, 999999999, 86399, d, 1, 256)
 			}
 		}
+	}
+
+	// 2b. batches of values of one real location on both sides of its offset changes
+	for i, nb := 0, 40; i < nb; i++ {
+		c20Batch(h, 6+h.R.Intn(10))
 	}
 
 	// 3. Date32: every day of the documented range; quick: rotating zone per block + a stride in every zone
